@@ -6,26 +6,31 @@
    __compute_supertypes / __create_fun, class namespaces, __bases__ assignment,
    descriptor-first attribute lookup on instances).
 
-   Full strength: the C3 theorems (no bound on the graph), the invariants for
-   every history, and C12_cache_consistent_every_history: in every state
-   reached from the empty one without installing the replacement
-   linearisation, whatever the edits and their outcomes, the linearisations
-   Python caches are those of the current bases (mro_hierarchy's depth-first
-   traversal over the registered subclasses against partly stale caches
-   included; a failed assignment rolls back).
+   Full strength: the C3 theorems (no bound on the graph); the mirror
+   invariants for every history; the cache invariant GInv for EVERY edit and
+   outcome, no side condition (C12_cache_invariant_every_edit: mro_hierarchy's
+   depth-first traversal over the registered subclasses against partly stale
+   caches included; a failed assignment rolls back), hence in every state
+   reached from the empty one
+   - the linearisations Python caches list exactly the classes reachable
+     through the current bases, pyecore's replacement linearisation installed
+     or not (C12_closed_caches_every_history),
+   - and while the replacement is not installed they are the linearisations
+     from scratch over the current bases (C12_cache_consistent_every_history:
+     the premise `consistent st` of the state-level theorems below);
+   when the replacement gets installed (C12_replacement_installed_iff) and
+   that it stays (C12_replacement_is_permanent).
    `_partial` theorems and what they leave out:
-   - the state-level ones (first group) take `consistent st` as a premise; the
-     `_history_partial` ones (last group) are the same statements for
-     fold_left next ops (empty_state fl) WITHOUT that premise, and for every
+   - the state-level ones (first group) take `consistent st` and `flag st =
+     false` as premises; the `_history_partial` ones (last group) are the same
+     statements for fold_left next ops (empty_state fl) WITHOUT these premises:
+     they cover the histories that install the replacement too, and every
      instance (its class always exists);
-   - all of them speak of states in which pyecore has not replaced the
-     linearisation of its metaclass (flag st = false); histories that install
-     the replacement are covered by the correspondence only;
    - histories are restricted by `side_condition` (a bulk clear() that stops
-     half-way, a supertype edit for which even the replacement fails) and, for
-     the "declared => visible" direction, `wf_op` (one declaration per name and
-     class; no behaviour attached under a feature name); the cache theorem
-     needs neither;
+     half-way, a supertype edit for which even the replacement fails: cycles,
+     unknown supertypes) and, for the "declared => visible" direction, `wf_op`
+     (one declaration per name and class; no behaviour attached under a
+     feature name);
    - an instance that has touched a name keeps a slot in its own dict: for such
      instance/name pairs only the characterisation `visible => declared or slot
      held` is true, see C12_removed_feature_stays_readable_refuted (the known
@@ -215,20 +220,30 @@ Example C12_removed_feature_stays_readable_refuted :
   snd (getattr_m (next (next st (AddFeat 1 (FX true 0))) (NewInst 1)) 1 X) = GColl [].
 Proof. vm_compute. repeat split; reflexivity. Qed.
 
-(* ---------- whole histories: the cache premise discharged ---------- *)
+(* ---------- the caches, for every edit and every history ---------- *)
 
-(* the invariant behind it: local C3 consistency of every cache, the subclass
-   registry is the inverse of the bases relation, the bases graph is acyclic *)
+(* the invariant: every cache is what the metaclass computes from the caches
+   of the current bases, the subclass registry is the inverse of the bases
+   relation, the bases graph is acyclic *)
 Theorem C12_cache_invariant_every_edit :
-  forall o st, (flag st = false -> GInv st) -> flag (next st o) = false ->
-    GInv (next st o) /\ flag st = false.
+  forall o st, GInv st -> GInv (next st o).
 Proof. exact step_GInv. Qed.
 Print Assumptions C12_cache_invariant_every_edit.
+
+Theorem C12_cache_invariant_gives_closed_caches :
+  forall st, GInv st -> forall c l, mro st c = Some l -> forall x, In x l <-> reach (bases_fn st) c x.
+Proof. exact GInv_MR. Qed.
+Print Assumptions C12_cache_invariant_gives_closed_caches.
 
 Theorem C12_cache_invariant_gives_consistent :
   forall st, GInv st -> flag st = false -> consistent st.
 Proof. exact GInv_consistent. Qed.
 Print Assumptions C12_cache_invariant_gives_consistent.
+
+Theorem C12_closed_caches_every_history :
+  forall ops fl, closed_caches (fold_left next ops (empty_state fl)).
+Proof. exact history_closed_caches. Qed.
+Print Assumptions C12_closed_caches_every_history.
 
 Theorem C12_cache_consistent_every_history :
   forall ops fl, flag (fold_left next ops (empty_state fl)) = false ->
@@ -236,15 +251,42 @@ Theorem C12_cache_consistent_every_history :
 Proof. exact history_consistent. Qed.
 Print Assumptions C12_cache_consistent_every_history.
 
+(* the replacement is installed exactly when both C3 attempts of a supertype
+   edit fail (declared order, then sorted by number of supertypes), and stays *)
+Theorem C12_replacement_installed_iff :
+  forall o st, GInv st -> flag st = false ->
+    (flag (next st o) = true <->
+     exists s1 c, pre_update o st = Some (s1, c) /\
+       assign s1 c (compute_supertypes (supers_fn s1 c)) = None /\
+       assign s1 c (sort_desc (fun x => length (all_supertypes s1 x)) (compute_supertypes (supers_fn s1 c))) = None).
+Proof. exact flag_raised_iff. Qed.
+Print Assumptions C12_replacement_installed_iff.
+
+Theorem C12_replacement_is_permanent :
+  forall o st, GInv st -> flag (next st o) = false -> flag st = false.
+Proof. exact step_flag. Qed.
+Print Assumptions C12_replacement_is_permanent.
+
+(* the depth-first traversal of the model runs on fuel (number of classes + 2):
+   any larger amount gives the same result, a failed assignment is never an
+   artefact of the model *)
+Theorem C12_assignment_fuel_is_enough :
+  forall st c k bs F, GInv st -> getc st c = Some k -> (fuel_of st <= F)%nat ->
+    hier F (setc st c (with_bases bs k)) c = hier (fuel_of st) (setc st c (with_bases bs k)) c.
+Proof. exact assign_fuel_enough. Qed.
+Print Assumptions C12_assignment_fuel_is_enough.
+
 Theorem C12_instance_class_exists_every_history :
   forall ops st, IC st -> IC (fold_left next ops st).
 Proof. exact history_IC. Qed.
 Print Assumptions C12_instance_class_exists_every_history.
 
+(* ---------- visibility and isinstance for whole histories ---------- *)
+
 Theorem C12_visible_is_declared_history_partial :
   forall ops fl i n x,
     let st := fold_left next ops (empty_state fl) in
-    sides ops (empty_state fl) -> flag st = false -> geti st i = Some x -> visible st i n ->
+    sides ops (empty_state fl) -> geti st i = Some x -> visible st i n ->
     (exists d, in_closure st (i_cls x) d /\
        ((exists f, declares_feat st d n f) \/ (exists s, declares_op st d n s) \/
         (exists b, ns_get n (ns_of st d) = Some (EBeh b))))
@@ -255,7 +297,7 @@ Print Assumptions C12_visible_is_declared_history_partial.
 Theorem C12_declared_is_visible_history_partial :
   forall ops fl i x d n,
     let st := fold_left next ops (empty_state fl) in
-    wf_history ops (empty_state fl) -> flag st = false -> geti st i = Some x ->
+    wf_history ops (empty_state fl) -> geti st i = Some x ->
     in_closure st (i_cls x) d ->
     ((exists f, declares_feat st d n f) \/ (exists s, declares_op st d n s)) ->
     visible st i n.
@@ -265,7 +307,7 @@ Print Assumptions C12_declared_is_visible_history_partial.
 Theorem C12_visible_iff_declared_history_partial :
   forall ops fl i x n,
     let st := fold_left next ops (empty_state fl) in
-    wf_history ops (empty_state fl) -> flag st = false -> geti st i = Some x ->
+    wf_history ops (empty_state fl) -> geti st i = Some x ->
     ns_get n (i_dict x) = None ->
     (forall d b, ns_get n (ns_of st d) = Some (EBeh b) -> exists s, declares_op st d n s) ->
     (visible st i n <->
@@ -277,7 +319,7 @@ Print Assumptions C12_visible_iff_declared_history_partial.
 Theorem C12_declared_feature_is_the_one_found_history_partial :
   forall ops fl c l d n f,
     let st := fold_left next ops (empty_state fl) in
-    wf_history ops (empty_state fl) -> flag st = false -> mro st c = Some l -> in_closure st c d ->
+    wf_history ops (empty_state fl) -> mro st c = Some l -> in_closure st c d ->
     declares_feat st d n f ->
     (forall z, In z l -> z <> d -> ns_get n (ns_of st z) = None) ->
     class_lookup st c n = Some (EFeat f).
@@ -287,7 +329,7 @@ Print Assumptions C12_declared_feature_is_the_one_found_history_partial.
 Theorem C12_isinstance_is_closure_history_partial :
   forall ops fl i c x,
     let st := fold_left next ops (empty_state fl) in
-    sides ops (empty_state fl) -> flag st = false -> geti st i = Some x -> c <> 0 ->
+    sides ops (empty_state fl) -> geti st i = Some x -> c <> 0 ->
     (isinstance_m st i c = true <-> in_closure st (i_cls x) c).
 Proof. exact history_isinstance_closure. Qed.
 Print Assumptions C12_isinstance_is_closure_history_partial.
@@ -304,5 +346,17 @@ Example C12_history_witness :
   wf_history h (empty_state false) /\ flag st = false /\ geti st 0 = Some (mkInst 5 []) /\
   mro mid 5 = Some [5; 4; 2; 1; 0] /\ isinstance_m mid 0 3 = false /\ snd (step (Get 0 X) mid) = RErr XAttr /\
   mro st 5 = Some [5; 4; 2; 3; 1; 0] /\ isinstance_m st 0 3 = true /\ snd (step (Get 0 X) st) = ROk [1; 5].
+Proof. vm_compute. repeat split; try reflexivity; try discriminate; try (intros ? ?; discriminate);
+       intros k E; inversion E; subst; simpl; tauto. Qed.
+
+(* ... also in a history that installs the replacement: E(C(A, B), D(B, A)) *)
+Example C12_history_replacement_witness :
+  let h := [NewClass []; NewClass []; NewClass [1; 2]; NewClass [2; 1]; NewClass [3; 4]; NewInst 5;
+            AddFeat 2 (FX false 5)] in
+  let st := fold_left next h (empty_state false) in
+  wf_history h (empty_state false) /\ flag st = true /\ geti st 0 = Some (mkInst 5 []) /\
+  mro st 5 = Some [5; 3; 4; 1; 2; 0] /\
+  map (isinstance_m st 0) [1; 2; 3; 4; 5] = [true; true; true; true; true] /\
+  snd (step (Get 0 X) st) = ROk [1; 5].
 Proof. vm_compute. repeat split; try reflexivity; try discriminate; try (intros ? ?; discriminate);
        intros k E; inversion E; subst; simpl; tauto. Qed.
